@@ -135,7 +135,7 @@ func execute(c Case) *pt.Failure {
 	var results []atenv.BranchResult
 	xid, gerr := atenv.Global("c01", func(cx context.Context) error {
 		for _, br := range sc.Branches {
-			r := atenv.RunBranch(cx, env.AT, br.Mode, br.Via, br.Prepared, texts(sc, names, br))
+			r := atenv.RunBranchOpt(cx, env.AT, atenv.BranchOpts{Mode: br.Mode, Via: br.Via, Prepared: br.Prepared, KeepGoing: br.KeepGoing}, texts(sc, names, br))
 			results = append(results, r)
 			if r.Failed() {
 				return errors.New("branch failed: " + r.FirstErr())
